@@ -53,6 +53,12 @@ def ecdh (a : Nat) (pk : Term) : Term :=
   | .epk b => if a ≤ b then .shared a b else .shared b a
   | t => .badShared a t
 
+/-- `crypto.pub_key(bytes)`: only a point on the curve is a public key — anything else (a flipped
+bit, junk) makes `CaseP::start` fail before any ECDH -/
+def isPubKey : Term → Bool
+  | .epk _ => true
+  | _ => false
+
 /-! constants (`info` strings and nonces) -/
 def infoS2K : Term := .atom 1002
 def infoS3K : Term := .atom 1003
@@ -217,6 +223,9 @@ def respSigma1 (fabrics : List Fabric) (m : Msg) (eph : Nat) (rnd rid sid : Term
     match findFabric fabrics iRnd dest with
     | .none => .refused
     | some f =>
+      -- `CaseP::start`: the peer's ephemeral key must parse as a curve point (else the handler
+      -- returns an error: nothing is sent)
+      if !isPubKey iEph then .refused else
       let secret := ecdh eph iEph
       let sig := Term.sign f.opKey (tbs f.noc f.icac (.epk eph) iEph)
       let key := s2k secret f.ipk rnd (.epk eph) m
